@@ -44,6 +44,7 @@ const modA = `module a { namespace "urn:a"; prefix a;
   leaf un { type union { type int8; type enumeration { enum auto; } } }
   leaf us { type union { type string { pattern "[a-z]+"; } type string { length "5"; } } }
   leaf idn { type identityref { base lonely; } }
+  leaf dot.ted-name_0 { type string; } leaf _u { type uint8; } leaf UPPER { type boolean; }
   leaf-list ll { type string; ordered-by user; } leaf-list ls { type uint8; }
   list li { key k; ordered-by user; leaf k { type string; } leaf v { type int8; } }
   list ls2 { key k; leaf k { type uint8; } leaf w { type string; } }
@@ -90,6 +91,7 @@ func slots() [][]*D {
 		{lf("idrt", "two"), lf("idrt", "a:one"), lf("idrt", "dup"), lf("idrt", "a:dup")}, // identityref through a typedef of the other module
 		{lf("un", "5"), lf("un", "auto")},
 		{lf("us", "abc"), lf("us", "12345")}, // a union of restricted strings only
+		{lf("dot.ted-name_0", "v"), lf("_u", "7"), lf("UPPER", "true")}, // names of every class an identifier may have
 		{lf("ll", "b", "a"), lf("ll", "a"), lf("ll", "z", "y", "x"), lf("ll", "x\\ty", "\\\\")},
 		{lf("ls", "3", "1", "2"), lf("ls", "255")},
 		{{Name: "li", Kids: []*D{entry("k2", lf("v", "1")), entry("k1")}}, {Name: "li", Kids: []*D{entry("only", lf("v", "-5"))}}, {Name: "li", Kids: []*D{entry("k\\n1"), entry("k 2\"")}}},
